@@ -629,6 +629,38 @@ func c06Unblock(c *Ctx, p *Prog) {
 			c.Check("C06.E", "forwarder:channels-bound", p, as[0].Pos(), okb, "the forwarder's two error channels are the ones its goroutines report on", "the forwarder's error-channel fields are not the channels its goroutines send on")
 		}
 	}
+	// the serialiser stops waiting for the published response only when the request's own context is
+	// done — the very event the publishing select of WriteHeader also listens to. A derived context
+	// that something else can cancel (the uploader on its final failure) ends the receiver while the
+	// sender can still be waiting: the handler then blocks in WriteHeader for good.
+	{
+		bad, n := "", 0
+		for _, op := range ChanOpsOf(g2) {
+			if op.Kind != "recv" || !op.InSelect || op.Val == nil || NamedType(op.Val.Type()) != "net/http.Response" {
+				continue
+			}
+			for k, st := range op.Select.States {
+				if k == op.State || st.Dir != types.RecvOnly {
+					continue
+				}
+				n++
+				okCtx := false
+				for _, r := range Roots(st.Chan) {
+					call, isC := r.(*ssa.Call)
+					if !isC || !call.Call.IsInvoke() || call.Call.Method.FullName() != "(context.Context).Done" {
+						continue
+					}
+					if rc := CallResult(call.Call.Value, 0, "(*net/http.Request).Context"); rc != nil && PathOf(PArgs(&rc.Call)[0]) == P(f, 4) {
+						okCtx = true
+					}
+				}
+				if !okCtx {
+					bad = "the serialiser's wait for the response also ends on " + PathOf(st.Chan) + " (" + p.Pos(op.Select.Pos()) + ")"
+				}
+			}
+		}
+		c.Check("C06.E", "serialiser:gives-up-only-with-the-request-context", p, g2.Pos(), bad == "" && n > 0, "the only other arm of the serialiser's wait for the published response is Done of the request's own context (the one WriteHeader's publishing select listens to)", bad+": when that fires while the handler has not yet written its header, nobody receives the response any more and the backend-facing handler (or Close) blocks in WriteHeader for good although all upload attempts have failed")
+	}
 	// publication select
 	if wh := c.need(p, "C06.E", "agent/utils.(*streamingResponseWriter).WriteHeader"); wh != nil {
 		ok := false
